@@ -95,6 +95,7 @@ func tlvErrClass(err error) string {
 }
 
 func checkC16(c *Ctx) {
+	platformProbe(c, "C16", "tlvprobe") // every tag / integers at the ends of every width, on 32-bit and non-amd64 builds too
 	c.SetRule("streams: sets (operation sequences over tags/lengths incl. 0, 254..257, k*255, up to 1024+; non-trivial = " +
 		"at least one value > 255 bytes or a repeated tag), parse (arbitrary / truncated / valid byte strings; non-trivial = " +
 		"parser consumed at least one item), std (standard reader on hc's bytes). distinct = distinct canonical input lines")
@@ -118,6 +119,23 @@ func checkC16(c *Ctx) {
 		r := c.CaseRng("sets-len", l)
 		cases = append(cases, setCase{c.CaseID("sets-len", l), []tlvOp{{byte(r.Intn(256)), randBytes(r, l)}}})
 		n++
+	}
+	// containers whose serialisation is longer than 64 KiB (one with an item boundary exactly at byte 65536)
+	for bi, big := range [][]tlvOp{
+		{{5, nil}},
+		{{1, nil}, {2, nil}, {5, nil}, {6, nil}},
+		{{9, nil}, {9, nil}},
+	} {
+		r := c.CaseRng("sets-big", bi)
+		sizes := [][]int{{70000}, {100, 154, 65770 - 1000, 300}, {40000, 40000}}[bi]
+		for k := range big {
+			big[k].Val = randBytes(r, sizes[k])
+		}
+		if bi == 1 {
+			// 102 + 156 bytes of short items, then 254 full fragments: the 254th ends at byte 65536
+			big[0].Val, big[1].Val, big[2].Val = randBytes(r, 100), randBytes(r, 154), randBytes(r, 254*255+200)
+		}
+		cases = append(cases, setCase{c.CaseID("sets-big", bi), big})
 	}
 	for t := 0; t < 256; t++ { // every tag
 		r := c.CaseRng("sets-tag", t)
